@@ -17,6 +17,7 @@
      RoundTripOK  - the name produced for (format, path, instant) is recognized, as that path, as that
                     instant to the microsecond when the format identifies it unambiguously, and in every
                     case as a (path, instant) that renders to exactly this name;
+     (history independence: the same formula for every call of a process that uses several formats, see Collide)
      Producible   - "a whole name the recorder could have produced": OVER-approximated (any string for
                     %path, any offset for %z, any in-range digits), so that "recognized => Producible" can
                     only fail for names that no recorder run, in any zone, for any path, could have written.
@@ -32,7 +33,10 @@ CONSTANTS FormatIds,     \* which of AllFormats are explored
           PathIds,       \* which of AllPaths
           CandZones,     \* zones in which candidate file names are generated
           CandPathIds,   \* paths whose names are mutated into candidate file names
-          CandInstIds    \* instants (indices of the table) whose names are mutated
+          CandInstIds,   \* instants (indices of the table) whose names are mutated
+          HistZones,     \* zones in which histories over colliding formats are generated
+          HistPathIds,   \* paths and
+          HistInstIds    \* instants of the calls of a history
 
 \* Record path formats after the extension has been added (PathAddExtension). All are accepted by
 \* conf.Path.validate: they contain %path and either %s or all of %Y %m %d %H %M %S.
@@ -51,8 +55,20 @@ AllFormats == <<
   <<"/r/", "%path", "-", "%Y", "-", "%m", "-", "%d", "_", "%H", "-", "%M", "-", "%S", "-", "%f", "%z", ".mp4">>,      \* 12 zone glued
   <<"/r/", "%z", "/", "%path", "/", "%s", "-", "%f", ".mp4">>,                                                 \* 13 zone first, unix
   <<"/r/", "%path", "/", "%d", "-", "%m", "-", "%Y", "_", "%S", "-", "%M", "-", "%H", "-", "%f", ".mp4">>,     \* 14 permuted
-  <<"/r/", "%path", "/", "%s", "_", "%Y", "-", "%m", "-", "%d", "_", "%H", "-", "%M", "-", "%S", "-", "%f", ".mp4">>  \* 15 both
+  <<"/r/", "%path", "/", "%s", "_", "%Y", "-", "%m", "-", "%d", "_", "%H", "-", "%M", "-", "%S", "-", "%f", ".mp4">>, \* 15 both
+  \* permutations of the same-width elements of format 1, same literals (they collide with it, see Collide)
+  <<"/r/", "%path", "/", "%Y", "-", "%d", "-", "%m", "_", "%H", "-", "%M", "-", "%S", "-", "%f", ".mp4">>,     \* 16 month <-> day
+  <<"/r/", "%path", "/", "%Y", "-", "%m", "-", "%d", "_", "%S", "-", "%M", "-", "%H", "-", "%f", ".mp4">>,     \* 17 hour <-> second
+  <<"/r/", "%path", "/", "%Y", "-", "%M", "-", "%d", "_", "%H", "-", "%m", "-", "%S", "-", "%f", ".mp4">>      \* 18 month <-> minute
 >>
+
+\* Two formats collide when they differ only in the order of elements of the same width (%m %d %H %M %S are all
+\* two digits): the same names match both, with different meanings. Whatever an implementation remembers between
+\* calls (compiled expressions, ...) must not leak from one to the other: histories below.
+Class(tok) == IF tok \in {"%m", "%d", "%H", "%M", "%S"} THEN "%2" ELSE tok
+Shape(fmt) == [i \in 1..Len(fmt) |-> Class(fmt[i])]
+Collide(a, b) == a # b /\ Shape(AllFormats[a]) = Shape(AllFormats[b])
+ASSUME SomeCollide == \E a, b \in DOMAIN AllFormats : Collide(a, b)
 
 AllPaths == <<"a", "a/b", "a-1", "cam.1_x", "2008-11-07_11-22-04-123456", "x/2008-11-07_11-22-04-123456.mp4",
               "1638447323", "a/Z">>
@@ -129,13 +145,26 @@ IdealOnlyProducible ==
 
 ASSUME FormatsAccepted == \A i \in DOMAIN AllFormats : AcceptedFormat(AllFormats[i])
 
+\* ---- histories (layer 2: history independence). The statement quantifies over every format, path and instant:
+\* it holds for a call whatever calls the same process made before. A history is a sequence of formats A, B, ...
+\* that collide; in a FRESH process, for each format in turn, the names of HistPathIds x HistInstIds are produced
+\* and decoded (Encode / Decode under A, then under B, ...). Every call is judged by the same per-call formula
+\* (RoundTripOK) as anywhere else. Orders A,B and B,A and the interleaving A,B,A, for every pair (A, B) of
+\* colliding formats in which A is the lowest-numbered format of its shape.
+Representative(a) == \A b \in FormatIds : Collide(a, b) => a < b
+HistCall(k) == k[1] \in HistPathIds /\ k[2] \in HistInstIds
+EmitHistories ==
+    (done /\ zone \in HistZones /\ Representative(fid)) =>
+        \A b \in {x \in FormatIds : Collide(fid, x)} :
+            Emit("HIST", [zone |-> zone, a |-> fid, b |-> b, orders |-> << <<fid, b>>, <<b, fid>>, <<fid, b, fid>> >>])
+
 \* ---- generator
 EmitCases ==
     done =>
       /\ \A k \in Keys :
            Emit("ENC", [fid |-> fid, fmt |-> Fmt, zone |-> zone, pid |-> k[1], p |-> AllPaths[k[1]], inst |-> k[2],
                         d |-> Table[k[2]].d, s |-> Table[k[2]].s, us |-> Table[k[2]].us, off |-> Table[k[2]].off[zone],
-                        name |-> tab[k], pathUnamb |-> PathUnamb(k), instUnamb |-> InstUnamb(k)])
+                        name |-> tab[k], pathUnamb |-> PathUnamb(k), instUnamb |-> InstUnamb(k), inhist |-> HistCall(k)])
       /\ \A k \in CandKeys : \A c \in Mutations(k) \ TrueNames :
            Emit("CAND", [fid |-> fid, fmt |-> Fmt, zone |-> zone, p |-> AllPaths[k[1]], file |-> c])
 =============================================================================
